@@ -244,8 +244,10 @@ class RandomForestClassifier(skRandomForestClassifier, DiffprivlibMixin):  # pyl
             # would have got if we hadn't used a warm_start.
             random_state.randint(MAX_INT, size=len(self.estimators_))
 
+        # Without a seed, trees are left unseeded so that their noise comes from the secure generator, instead of being
+        # seeded with integers drawn from numpy's global generator
         trees = [
-            self._make_estimator(append=False, random_state=random_state)
+            self._make_estimator(append=False, random_state=random_state if self.random_state is not None else None)
             for _ in range(n_more_estimators)
         ]
 
